@@ -137,10 +137,17 @@ def validate(prop, root=None, evidence_dir=None):
                     jobs.append(("silent", f"neutral {kind}#{seed}", None,
                                  ex.submit(_neutral, prop, root, kind, seed)))
             nd = os.path.join(VERIF, "neutral")
+            try:
+                with open(os.path.join(nd, "KNOWN_NOISY.json")) as fin:
+                    noisy = json.load(fin)
+            except OSError:
+                noisy = {}
             for name in sorted(os.listdir(nd)) if os.path.isdir(nd) else []:
                 p = os.path.join(nd, name, "patch.diff")
                 if os.path.exists(p):
-                    jobs.append(("silent", "refactoring " + name, None,
+                    want = noisy.get(name, {}).get(prop, 0) if isinstance(
+                        noisy.get(name), dict) else 0
+                    jobs.append(("silent", "refactoring " + name, want,
                                  ex.submit(_patched, prop, root, p)))
             results = [(k, label, key, f.result()) for k, label, key, f in jobs]
     finally:
@@ -158,9 +165,9 @@ def validate(prop, root=None, evidence_dir=None):
             if rc != want:
                 bad.append(f"{label}: the check exits {rc}, expected {want} "
                            f"({msg})")
-        elif rc != 0:
+        elif rc != (key or 0):
             bad.append(f"{label}: the check exits {rc} on a behaviour-"
-                       f"preserving variant ({msg})")
+                       f"preserving variant, expected {key or 0} ({msg})")
     summary = {
         "breaking_changes_checked": stats["detect"],
         "neutral_variants_checked": stats["silent"],
